@@ -53,12 +53,16 @@ func (k kind) outcome(r int) int {
 }
 
 var canonText [nKinds]string // MarshalCedar text of a stand-alone policy of each kind
+var canonErr error
 
-func init() {
+// initCanon is called when the check starts (not at package init: a repository change that
+// breaks parsing must surface as a violation of the running check, not crash every check).
+func initCanon() {
 	for k := kind(0); k < nKinds; k++ {
 		var p cedar.Policy
 		if err := p.UnmarshalCedar([]byte(kindSrc[k])); err != nil {
-			panic(err)
+			canonErr = fmt.Errorf("%s: %w", kindSrc[k], err)
+			return
 		}
 		canonText[k] = string(p.MarshalCedar())
 	}
@@ -498,6 +502,7 @@ func Check() *core.Check {
 			"zero-value PolicySet (nil map) is outside the alphabet",
 		},
 		Families: func(tier string) []*core.Family {
+			initCanon()
 			depth := 4
 			if tier == "thorough" {
 				depth = 6
@@ -508,6 +513,10 @@ func Check() *core.Check {
 				N:      nInits,
 				Serial: true,
 				Run: func(t *core.T, i int64) {
+					if canonErr != nil {
+						t.Fail("basic-policy-does-not-parse", canonErr.Error(), "parses", canonErr.Error())
+						return
+					}
 					d := depth
 					if i > 3 && d > 3 {
 						d-- // large documents: one level less (observation cost grows with the set)
